@@ -1,6 +1,7 @@
 import SkyllhModel.Proto
 import SkyllhModel.Model.Par
 import SkyllhModel.Model.ParStatus
+import SkyllhModel.Model.ParSetupR7
 import Std.Data.HashSet
 open Proto Par
 
@@ -17,6 +18,15 @@ open Proto Par
       ncpuof  <cfg value> <local value>   (none | int:<n> | other)   -> ok:<n> | TypeError | ValueError
       trials  <cfg value> <local value> <n>  -> Analysis.do_trials: done:<order> | IndexError | TypeError | ValueError
       status  <shown> <cap> <tasks> <drainAtJoin>   (Model/ParStatus)  -> exits | stuck
+    round 7 (Model/ParSetupR7):
+      setup   <ncpu:int> <rss> <tl> <n> <caller seed> <draws>   (rss, tl: none | ok | wrong; draws: what the caller's service yields)
+              -> single rss=<k> tl=<k> tag:… | rejected tag:… | TypeError tag:…
+               | ok seeds=<seed or `none`, per child> draws=<k> tl=<0|1 per child> pids=<pid of each task>
+                 tasks=<seed of the service/numbers it yielded before/local task number/input, per output position> tag:…
+      ncpuofp <default> <min> <cfg value> <local value>          -> as ncpuof, literals as parameters
+      ncpuprop <default> <minGet> <minSet> <cfg value> <value>   -> ok:<n> | set:<E> | get:<E>
+      kwargs  <keys of the task's own kwargs> <rss given 0|1> <tl given 0|1>  -> key=own|svc, in dict order
+      badexit <exit codes>                                       -> none | <index>:<code>
 -/
 
 def parseFault (s : String) : Option (Nat × Fault) :=
@@ -184,6 +194,14 @@ def pyVal (s : String) : PyVal :=
     | ["int", n] => .int n.toInt!
     | _ => .other
 
+def argOf (s : String) : ParSetup.Arg :=
+  if s == "ok" then .ok else if s == "wrong" then .wrong else .none
+
+def fArg : ParSetup.Arg → String
+  | .none => "none"
+  | .ok => "ok"
+  | .wrong => "wrong"
+
 def answer (line : String) : String :=
   match tokens line with
   | ["split", n, ncpu] =>
@@ -225,6 +243,39 @@ def answer (line : String) : String :=
       match getNcpu (pyVal c) (pyVal l) with
       | .ok n => s!"ok:{n}"
       | .error e => e
+  | ["setup", ncpu, rss, tl, n, seed, draws] =>
+      let ds := pList pN draws
+      let r := ParSetup.setup (pI ncpu) (argOf rss) (argOf tl) (fun i => ds.getD i 0)
+      let tag := " tag:" ++ ParSetup.setupTag (pI ncpu) (argOf rss) (argOf tl)
+      match r with
+      | .error e => e ++ tag
+      | .ok s =>
+        let tasks := " tasks=" ++ fListD id (ParSetup.seededExpected
+                (fun sd skip t x => (match sd with | some v => toString v | none => "none") ++ s!"/{skip}/{t}/{x}")
+                s (if argOf rss = .ok then some (pN seed) else none) (List.range (pN n)) (pI ncpu).toNat)
+        if s.single then s!"single rss={fArg s.masterRss} tl={fArg s.masterTl}" ++ tasks ++ tag
+        else
+          "ok seeds=" ++ fListD (fun o => match o with | some v => toString v | none => "none") s.childSeeds
+            ++ s!" draws={s.masterDraws} tl=" ++ fListD fB s.childTl
+            ++ " pids=" ++ fListD toString (ParSetup.taskPid (pN n) (pI ncpu).toNat)
+            ++ tasks ++ tag
+  | ["ncpuofp", d, m, c, l] =>
+      match ParSetup.getNcpuP (pI d) (pI m) (pyVal c) (pyVal l) with
+      | .ok n => s!"ok:{n}"
+      | .error e => e
+  | ["ncpuprop", d, mg, ms, c, v] =>
+      match ParSetup.ncpuProperty (pI d) (pI mg) (pI ms) (pyVal c) (pyVal v) with
+      | .ok n => s!"ok:{n}"
+      | .error e => e
+  | ["kwargs", own, rss, tl] =>
+      -- own: keys of the caller's dictionary (value `own`); rss / tl: 1 = the process has a service / TimeLord (value `svc`)
+      let d := (pList id own).map fun k => (k, "own")
+      fListD (fun kv => kv.1 ++ "=" ++ kv.2)
+        (ParSetup.taskKwargs d (if pB rss then some "svc" else none) (if pB tl then some "svc" else none))
+  | ["badexit", codes] =>
+      match ParSetup.firstBadExit (pList pI codes) with
+      | none => "none"
+      | some (i, c) => s!"{i}:{c}"
   | _ => "bad-op"
 
 def main : IO Unit := do loop (← IO.getStdin) answer
